@@ -270,6 +270,48 @@ def subst_atoms(r, mapping):
     raise NotImplementedError("rational substitution")
 
 
+def subst_deep(r, mapping):
+    """substitute plain-string atoms everywhere, also inside the arguments of uninterpreted applications (which are rebuilt
+    through app() so that constant folding and the usual normalisations apply again)"""
+    r = _R(r)
+    m = {k: _R(v) for k, v in mapping.items()}
+    if not m:
+        return r
+    cache = {}
+
+    def atom_value(a):
+        if a in cache:
+            return cache[a]
+        if isinstance(a, str):
+            v = m.get(a, atom(a))
+        elif isinstance(a, tuple) and a and isinstance(a[0], str) and all(_is_canon(x) for x in a[1:]):
+            v = app(a[0], *[poly_value_rat(uncanon(x)) for x in a[1:]])
+        else:
+            v = atom(a)
+        cache[a] = v
+        return v
+
+    def poly_value(p):
+        tot = const(0)
+        for mono, c in p.t.items():
+            term = Rat(Poly.const(c))
+            for a, pw in mono:
+                av = atom_value(a)
+                for _ in range(pw):
+                    term = term * av
+            tot = tot + term
+        return tot
+
+    def poly_value_rat(x):
+        x = _R(x)
+        return poly_value(x.n) / poly_value(x.d)
+    return poly_value_rat(r)
+
+
+def _is_canon(x):
+    return isinstance(x, tuple) and len(x) == 2 and all(isinstance(y, tuple) for y in x)
+
+
 # ---------------------------------------------------------------------------------------------
 # optional rewrites (only applied where a rule asks for them)
 def _half_of_atan2(argcanon):
